@@ -1,21 +1,57 @@
 import QcelVerif.Model.ChgMult
+import QcelVerif.Model.ChgMultSrc
 import QcelVerif.Lib.Proto
-/-! Line-protocol driver for the C05 model.  `frags|c|fc|m|fm|zgf` -/
+/-! Line-protocol driver for the C05 model.
+  `frags|c|fc|m|fm|zgf`        -> answer of the hand model `vfc`
+  `3|frags|c|fc|m|fm|zgf`      -> `<answer of vfc> ## <answer of vfcSrcLazy>` (rules and candidate lists as
+                                  regenerated from chgmult.py, `Gen/ChgMultSrc.lean`, run by the evaluator of
+                                  `Model/ChgMultAst.lean`; rule list assessed lazily)
+  `4|frags|c|fc|m|fm|zgf`      -> `<answer of vfc> ## <answer of vfcSrc>` (every rule assessed for every candidate, as
+                                  `reconcile` does; several times slower)
+  `R|frags|c|fc|m|fm|zgf`      -> the candidate lists of the source-derived procedure for the effective specification:
+                                  `c=<..> fc=<..;..> m=<..> fm=<..;..>` (or `raise`) -/
 open QcelVerif QcelVerif.ChgMult QcelVerif.Proto
 
 def parseFrags? (s : String) : Option (List (List Int)) :=
   (splitOnChar s ';').mapM (fun f => parseIntList? f ',')
 
+def parseInp? (fr c fc m fm z : String) : Option Inp :=
+  match parseFrags? fr, parseOptInt? c, parseOptIntList? fc ' ', parseOptInt? m, parseOptIntList? fm ' ' with
+  | some fr, some c, some fc, some m, some fm =>
+    some { frags := fr, c := c, fc := fc, m := m, fm := fm, zgf := trimStr z == "1" }
+  | _, _, _, _, _ => none
+
+def showRes : Except Err Out → String
+  | .ok o => s!"ok {o.c} {showIntList o.fc} {o.m} {showIntList o.fm}"
+  | .error .validation => "err Validation"
+  | .error .malformed => "err malformed"
+
+
+def showRanges (i : Inp) : String :=
+  match Ast.evalDims (Ast.envOf (effective i) none) QcelVerif.Gen.ChgMultSrc.genDims with
+  | none => "raise"
+  | some r =>
+    let ll (x : List (List Int)) := ";".intercalate (x.map showIntList)
+    s!"c={showIntList r.c} fc={ll r.fc} m={showIntList r.m} fm={ll r.fm}"
+
 def stepC05 (line : String) : String :=
   match splitOnChar line '|' with
   | [fr, c, fc, m, fm, z] =>
-    match parseFrags? fr, parseOptInt? c, parseOptIntList? fc ' ', parseOptInt? m, parseOptIntList? fm ' ' with
-    | some fr, some c, some fc, some m, some fm =>
-      match vfc { frags := fr, c := c, fc := fc, m := m, fm := fm, zgf := trimStr z == "1" } with
-      | .ok o => s!"ok {o.c} {showIntList o.fc} {o.m} {showIntList o.fm}"
-      | .error .validation => "err Validation"
-      | .error .malformed => "err malformed"
-    | _, _, _, _, _ => "bad-op"
+    match parseInp? fr c fc m fm z with
+    | some i => showRes (vfc i)
+    | none => "bad-op"
+  | ["3", fr, c, fc, m, fm, z] =>
+    match parseInp? fr c fc m fm z with
+    | some i => showRes (vfc i) ++ " ## " ++ showRes (vfcSrcLazy i)
+    | none => "bad-op"
+  | ["4", fr, c, fc, m, fm, z] =>
+    match parseInp? fr c fc m fm z with
+    | some i => showRes (vfc i) ++ " ## " ++ showRes (vfcSrc i)
+    | none => "bad-op"
+  | ["R", fr, c, fc, m, fm, z] =>
+    match parseInp? fr c fc m fm z with
+    | some i => showRanges i
+    | none => "bad-op"
   | _ => "bad-op"
 
 def main : IO Unit := mainLoop stepC05
